@@ -1294,7 +1294,7 @@ func c18e(c *Ctx) {
 		for _, r := range returnsOf(np) {
 			f = c.valueFields(np, r.Results[0], r)
 		}
-		ok = f != nil && f["LineNumberStart"] == "$0.LineNumber" && f["LineNumberEnd"] == "$0.EndLineNumber" && f["CharStart"] == "$0.StartCharIndex" && f["CharEnd"] == "$0.EndCharIndex"
+		ok = f != nil && f["LineNumberStart"] == "$0.LineNumber" && f["LineNumberEnd"] == "$0.EndLineNumber" && f["CharStart"] == "$0.StartCharIndex" && f["CharEnd"] == "$0.EndCharIndex" && f["Utf8CharStart"] == "$0.StartUtf8CharIndex" && f["Utf8CharEnd"] == "$0.EndUtf8CharIndex" && f["Message"] == "$1"
 		c.Check(ok, "NewParseError/fields", c.W.FuncPos(np), "error range = the token's own range", "NewParseError does not copy the token's own start and end")
 	}
 	c18eLocated(c, nr, np)
